@@ -44,6 +44,10 @@ def run(ctx):
             ctx.fail("build-error:direct-word-m%d" % m, str(e)[-600:])
     jobs.sort(key=lambda j: -j[3])
     common.parallel(lambda j: common.run_harness(ctx, j[0], j[1], label=j[2]), jobs)
+    # long inputs of the masked ciphers with the library's own random source: messages and associated data of 128 KiB+1 .. 16 MiB+3 bytes (thorough: 2^32 + 40 bytes of associated data)
+    common.mid_lengths(ctx, ["masked:0", "masked:1", "masked:2", "masked-ad:0", "masked-ad:1", "masked-ad:2"], ("asm", "c64", "c32", "dxor", "generic") if ctx.thorough else ("asm", "c32"))
+    if ctx.thorough:
+        common.huge_lengths(ctx, ["masked-ad:0", "masked-ad:1", "masked-ad:2"], jobs=3)
     ctx.assumptions += [
         "the masking random source is replaced at link time (library built without ascon-trng-mixer.c; harness supplies ascon_trng_generate_32/64 from a scripted tape)",
         "unmasking uses the library's own store / copy_to_x1 functions, so a compensating error in both directions of a representation would go unnoticed by the word-level oracle (the AEAD-level and permutation-level oracles compare with the reference)",
